@@ -54,3 +54,20 @@ Print Assumptions c03_completed_flush_recovered.
 Theorem c03_root_at_local : forall f f' e, agree f f' e -> root_at f' e = root_at f e.
 Proof. exact DiskProofs.root_at_agree. Qed.
 Print Assumptions c03_root_at_local.
+
+(* ---------------------------------------------------------------------------------------------- *)
+(* REGENERATED FROM THE SOURCE ON EVERY RUN (tools/gen -> Generated.g_code; Decisions.v): the decisions the model
+   takes at these points are the evaluations of the conditions the Go source has there, for all values of their
+   variables. *)
+From GK Require Import GExpr Generated Decisions.
+From Coq Require Import String.
+
+(* the recorded offset of a root record and the length it implies (Codec.root_at) *)
+Theorem c03_root_offset_check_is_source :
+  exists c, decisions "Store.checkAndReadRoots" "offset" = [c] /\
+    forall offset size len len32 : Z,
+      let rho := upd (upd (upd (upd (upd env0 "offset" offset) "atomic.LoadInt64(&s.size)" size) "rootsLen" roots_len)
+                          "length" len) "uint32((atomic.LoadInt64(&s.size)-offset))" len32 in
+      gtrue rho c = Some (Z.geb offset 0 && Z.ltb offset (size - roots_len) && Z.eqb len len32).
+Proof. exact Decisions.root_offset_decision. Qed.
+Print Assumptions c03_root_offset_check_is_source.
